@@ -31,6 +31,8 @@ CLAIMED = {
          "Exploration with emphasis on undeclared token codes inside and outside the declared range and on getters after failures (found F03, F08, F33)."),
  'C16': ("differential testing: the same generated history through the C functions and through class yaep in one process, transcripts compared; long inputs force the C++ containers to grow", "6.C16",
          "Exploration (found F24). The C side is judged by C01-C15; this check only demands equality."),
+ 'C09': ("metamorphic testing (lookahead level and debug level must not change the outcome tuple) + hook H2: every goto-cache hit is recomputed and compared with the cached set", "6.C09",
+         "Exploration on random grammars with short inputs (all 6 lookahead values x 9 debug levels) and inputs of up to 150/400 tokens made of repeated fragments (found F10, F28). The ANSI C grammar is covered by the thorough tier only if the tokenised fixture could be built."),
  'C08': ("reference minimum over all simple recoveries computed on reference Earley sets", "6.C08", "Exploration; inequality only, as the property states; meaningful together with C07's accounting clause."),
 }
 m={
